@@ -165,6 +165,25 @@ def case_factors(ctx, res, p):
                         p, detail={"abs": float(dv), "tol": float(atol)}, signature="C09:fixed-vs-full")
     if np.linalg.norm(D, 2) > 2 * j * (1 + 1e-6) + atol:
         res.oracle_fail("'fixed' vs 'full' L L^T differ by more than 2*jitter in operator norm", p, signature="C09:fixed-bound")
+    # the same cells handed over as explicit inducing points in another order: the projection does not depend on the order
+    # of the inducing points, and the non-sparse model is conditioned on the cells whatever landmarks are passed along
+    import importlib
+    P = importlib.import_module("mellon.parameters")
+    perm = np.random.default_rng(n * 31 + X.shape[1]).permutation(n)
+    Xp = jnp.asarray(X[perm])
+    Lfix_p = np.asarray(compute_L(jnp.asarray(X), cov, gp_type="fixed", landmarks=Xp, jitter=j), float)
+    dvp = np.max(np.abs(Lfix_p @ Lfix_p.T - Lfix @ Lfix.T))
+    res.dev("fixed_permuted_landmarks_over_tol", dvp / atol)
+    if dvp > atol and atol < 1e-4 * ks:
+        res.oracle_fail("'fixed' with the cells as inducing points in another order changes L L^T", p,
+                        detail={"abs": float(dvp), "tol": float(atol)}, signature="C09:fixed-permuted")
+    Lp_full = P.compute_Lp(jnp.asarray(X), cov, gp_type="full", landmarks=Xp, jitter=j)
+    Lfull_p = np.asarray(compute_L(jnp.asarray(X), cov, gp_type="full", landmarks=Xp, Lp=Lp_full, jitter=j), float)
+    dvf = np.max(np.abs(Lfull_p @ Lfull_p.T - Lfull @ Lfull.T))
+    res.dev("full_with_landmarks_over_tol", dvf / atol)
+    if dvf > atol and atol < 1e-4 * ks:
+        res.oracle_fail("the non-sparse ('full') factor changes when landmarks (the cells in another order) are passed along", p,
+                        detail={"abs": float(dvf), "tol": float(atol)}, signature="C09:full-with-landmarks")
     # rank reduction: error = discarded eigenvalue mass, monotone in the request, zero for a full-rank request
     s = np.sort(np.linalg.eigvalsh(Kt))[::-1]
     prev = None
@@ -211,6 +230,15 @@ def case_estimators(ctx, res, p):
     if dv > 5e-3:
         res.oracle_fail("'fixed' with n_landmarks >= n does not reproduce the full model's fitted values", p,
                         detail={"rel": float(dv)}, signature="C09:fixed-fit")
+    # the full model given the cells themselves (other order) as explicit landmarks is the same full model
+    perm = np.random.default_rng(n).permutation(n)
+    el = m.DensityEstimator(gp_type="full", landmarks=X[perm], **kw)
+    c = np.asarray(el.fit_predict(X), float)
+    dvl = np.max(np.abs(a - c)) / rng_
+    res.dev("full_with_landmarks_fit_rel", dvl)
+    if dvl > 5e-3:
+        res.oracle_fail("'full' with the cells as explicit landmarks (other order) does not reproduce the full model", p,
+                        detail={"rel": float(dvl)}, signature="C09:full-landmarks-fit")
     Xq = np.asarray(p["Xq"], float)
     pa, pb = np.asarray(ef.predict(Xq), float), np.asarray(ex.predict(Xq), float)
     if np.max(np.abs(pa - pb)) / rng_ > 5e-3:
